@@ -151,6 +151,9 @@ def xindex(array, row_num, col_num=None, area_num=1):
     )
     if not res.shape:
         res = res.reshape(1, 1)
+    if res.size == 1 and isinstance(res.ravel()[0], np.ndarray):
+        # A whole row or column of the array.
+        res = np.atleast_2d(res.ravel()[0]).astype(object)
     return res.view(Array)
 
 
@@ -304,6 +307,7 @@ FUNCTIONS['LOOKUP'] = wrap_ufunc(
 
 
 def args_parser_hlookup(val, vec, index, match_type=1, transpose=False):
+    raise_errors(index, match_type)
     index = int(_text2num(np.ravel(index)[0]) - 1)
     vec = np.matrix(vec)
     if transpose:
